@@ -4,6 +4,7 @@
      class   <nb> bins.. <rows> <cols> cells..
      jenksmin <k> <n> sorted integer data..
      jenksimp <k> <n> sorted integer data..     (the imperative model of _run_numpy_jenks_matrices / _run_jenks)
+     qcuts <k> <n> sorted integer data..        (quantile: k * de-duplicated percentile cuts | class of each datum)
    output: the result cells row-major, or ERR … *)
 open Model
 open Zio
@@ -52,4 +53,10 @@ let () = main_loop (fun op r ->
     ^ " | " ^ (if jenks_bt_ok data kn then "1" else "0")
     ^ " | " ^ String.concat " " (List.map string_of_q (run_jenks data kn))
     ^ " | " ^ String.concat " " (List.map (fun c -> string_of_int (int_of_nat c)) (jenks_cuts data kn))
+  | "qcuts" ->
+    let k = next_int r in
+    let xs = next_list r next_z in
+    let kn = nat_of_int k in
+    String.concat " " (List.map string_of_z (zuniq (q_cuts xs kn)))
+    ^ " | " ^ String.concat " " (List.map (fun v -> opt_cell (quantile_class xs kn v)) xs)
   | _ -> "ERR unknown-op " ^ op)
